@@ -177,6 +177,28 @@ PROPS["C12"] = {
     "technique": "bounded model checking (Kani/CBMC --prove-safety-only) of safe entry points with unconstrained symbolic arguments",
 }
 
+PROPS["C16"] = {
+    "engine": "e2", "engine_name": "E2-mirsmt", "feature": "c16",
+    "functions": ["fuse::edge_1", "fuse::edge_2", "fuse::edge_2_big",
+                  "ShardEdge::{edge,local_edge,local_sig,shard,num_vertices,sort_key,num_sort_keys,shard_high_bits} for FuseLge3Shards, "
+                  "FuseLge3FullSigs, FuseLge3NoShards<[u64;2]>, FuseLge3NoShards<[u64;1]>", "Sig::high_bits (as specification of the shard index)"],
+    "bounds": "all 64-bit words of the signature, all l, all shard_bits_shift inside the invariant set_up_shards/set_up_graphs establish "
+              "(l >= 1; sharded: log2_seg_size <= 31, (l+2) << log2_seg_size <= 2^32, shard_high_bits <= 32; unsharded: log2_seg_size <= 18); "
+              "edge-arithmetic obligations are discharged per concrete log2_seg_size (quick: 7 values incl. one drawn by VERIF_SEED; thorough: all), "
+              "the others once for all values; quick: overflow-checks=on MIR; thorough: both overflow profiles",
+    "outside": "that set_up_shards/set_up_graphs only produce parameters inside the invariant for every n (floating-point set-up code: ln, log2, "
+               "lambert_w0, ceil; the assertions they end with are part of the invariant); shard_high_bits > 32 (more than ~8.6e16 keys); "
+               "the mwhc logics (feature mwhc, benchmarking only); num_shards() is the trait default 1 << shard_high_bits()",
+    "assumptions": ["the MIR dump of rustc nightly (-Zunpretty=mir) is the semantics of the functions (the translator aborts on any construct it does not know)",
+                    "z3 5.1 / z3 4.8.12 bit-vector decision procedures (unsat from either is accepted); one query per implementation and profile cross-checked on cvc5 and on the other z3",
+                    "results of rotate_right are generalised to fresh variables for the range/distinctness obligations (only strengthens them; a sat answer is re-checked without)"],
+    "level_text": "Translation of the compiler's MIR of the real edge functions into SMT-LIB2 bit-vector terms; each obligation (no "
+                  "panic, distinct, in range, global = shifted local, sort key, shard = high bits) is one unsat query over all "
+                  "signatures and all parameters inside the invariant.",
+    "level_note": "Trusted: the MIR->SMT translator (verif_lib/mirsmt.py, refuses unknown constructs), z3/cvc5; parameter invariant as stated.",
+    "technique": "symbolic execution of rustc MIR into SMT-LIB2 bit-vectors (own translator), decided by z3 (5.1, fallback 4.8.12), cross-checked on cvc5",
+}
+
 # Properties not (yet) claimed, with the reason. Entries for properties that
 # gain a check are ignored by tools/gen_manifest.py.
 NOT_APPLICABLE = {
@@ -186,7 +208,6 @@ NOT_APPLICABLE = {
     "C09": "check not built yet in this revision (planned, partial: DESIGN.md §2 C09)",
     "C11": "check not built yet in this revision (planned, partial: DESIGN.md §2 C11)",
     "C15": "mmap/load_full are file I/O and an FFI mmap call; epserde's in-memory (de)serialisation hashes type names and walks a generic reader/writer stack of a dependency: heap- and loop-heavy, beyond a bounded encoding; measured obstacles in DESIGN.md §2 C15",
-    "C16": "check not built yet in this revision (planned: DESIGN.md §2 C16, engine E2)",
     "C17": "same entry points and obstacles as C07 (threads, per-key hashing, file-backed stores); build_loop is a private generic method whose retry logic cannot be driven without rewriting the builder",
     "C18": "offline store is file I/O; the in-memory store pushes into the Vec selected by symbolic top bits (symbolic choice of heap object: 20 GB / 13 min for two pushes), and with those bits fixed nothing is left for a solver to decide",
     "C19": "check not built yet in this revision (planned, partial: DESIGN.md §2 C19)",
